@@ -57,8 +57,8 @@ ASSUMPTIONS = [
     "Base: CV is not covered (the harness unit registers no column volume)",
 ]
 TIERS = {
-    "quick": {"examples": 4800, "budget_s": 150, "depth": 2, "top": 6, "children": 4, "max_ticks": 260},
-    "thorough": {"examples": 42000, "budget_s": 1500, "depth": 3, "top": 9, "children": 5, "max_ticks": 520},
+    "quick": {"examples": 4800, "budget_s": 150, "chunk": 300, "depth": 2, "top": 6, "children": 4, "max_ticks": 260},
+    "thorough": {"examples": 120000, "budget_s": 1500, "chunk": 300, "depth": 3, "top": 9, "children": 5, "max_ticks": 520},
 }
 # Watches (bodies without thresholds, blocks, Base, End block) run beside the main thread.  They do not change the lexical
 # scope of any main-thread line, so the oracle is unchanged; on the current tree they expose that the interpreter reads the
@@ -175,7 +175,7 @@ def analyse(case):
 
         if n_s is not None:
             if b is None or b > n_s:
-                viol("started-before-scope", "line %r reported started at tick %s, its scope began at tick %s" % (l.text, n_s, b))
+                cls.add("not-judged:line-started-before-its-scope-began")      # nesting is C02/C05's subject
                 continue
             # never early
             if is_time:
@@ -185,10 +185,12 @@ def analyse(case):
             if reached < thr:
                 # a line that starts in the very tick its Block began has its own root cause (which clock value is visible
                 # in that tick), kept apart from a line released too early while its block is running
-                viol(("early:block-start-tick:%s" % ("time" if is_time else "volume")) if scope is not None and n_s == b else "early:%s" % unit, "%r (Base %s, %s) started at tick %d when its scope clock had at most %s %s of %s "
-                     "(scope began at tick %d)%s" % (l.text.strip(), unit, "block level %d" % nest if nest else "program scope",
-                                                   n_s, float(reached), "s" if is_time else "L", float(thr), b,
-                                                   _ctx(case, lines)))
+                sig = "early:%s" % unit
+                if scope is not None and n_s == b:
+                    sig = "early:block-start-tick:%s" % ("time" if is_time else "volume")
+                viol(sig, "%r (Base %s, %s) started at tick %d when its scope clock had at most %s %s of %s (scope began at tick %d)%s"
+                     % (l.text.strip(), unit, "block level %d" % nest if nest else "program scope", n_s, float(reached),
+                        "s" if is_time else "L", float(thr), b, _ctx(case, lines)))
         # never late: metamorphic twin
         if b is None:
             continue          # the scope never began: the line was never reachable
@@ -230,26 +232,33 @@ def analyse(case):
                 cls.add("bind:pause-or-hold-while-awaiting")
         elif n_s is not None:
             cls.add("threshold-not-binding")
+        if n_s is not None and n_s > n0 and scope is None and is_time and interrupt_scope_visible(n0, n_s):
+            cls.add("bind:program-scope-line-while-watch-scope-active")
         is_late = n_float is not None and obs > n_float and n_float <= horizon - 1
         is_fb = not is_late and n_exact is not None and obs > n_exact and n_exact <= horizon - 1
-        if is_late and scope is None and is_time and interrupt_scope_visible(n0, min(obs, horizon)):
-            # Root cause kept apart: the line is held back exactly until the Scope Time of the most recently activated
-            # *Watch* scope (not of the program scope the line belongs to) has reached T.
-            def first_reached_visible(pre):
+        n_should = n_float if is_late else n_exact
+        if (is_late or is_fb) and scope is None and is_time and \
+                all(interrupt_scope_visible(n, n) for n in range(n_should, min(obs, horizon + 1)) if interp[n]):
+            # Root cause kept apart: in every tick from the one in which the line should have started, a Watch scope was the
+            # most recently activated scope, and the line is released exactly when *that* scope (not the program scope the
+            # line belongs to) has run T.
+            def first_reached_visible(pre, exact):
                 for n in range(n0, horizon + 1):
                     if not interp[n]:
                         continue
                     vis = [a for a, e in watch_iv.values() if a < n and (e is None or n <= e)]
-                    if _fsum(count(pre, max(vis) if vis else b, n)) >= thr:
+                    k = count(pre, max(vis) if vis else b, n)
+                    if (k * H.INTERVAL if exact else _fsum(k)) >= thr:
                         return n
                 return horizon + 1
-            if first_reached_visible(hi_pre) <= obs <= first_reached_visible(lo_pre):
+            # earliest explanation: exact arithmetic on the upper shadow; latest: float clock on the lower shadow
+            if first_reached_visible(hi_pre, True) <= obs <= first_reached_visible(lo_pre, False):
                 cls.add("threshold-awaited-while-interrupt-scope-active")
                 viol("late:interrupt-scope-shadows-program-scope",
                      "%r (Base %s, program scope) could start at tick %d (twin with threshold 0) and the program scope (began tick %d) "
                      "had run %s s >= %s at tick %d, but the line %s - the tick at which the scope of a Watch activated meanwhile "
                      "(Watch scopes active: %s) had run that long%s"
-                     % (l.text.strip(), unit, n0, b, float(count(lo_pre, b, n_float) * H.INTERVAL), float(thr), n_float,
+                     % (l.text.strip(), unit, n0, b, float(count(lo_pre, b, n_should) * H.INTERVAL), float(thr), n_should,
                         "started at tick %d" % n_s if n_s is not None else "had not started by tick %d" % horizon,
                         sorted(watch_iv.values(), key=lambda x: x[0]), _ctx(case, lines)))
                 continue
@@ -372,4 +381,13 @@ def run_shard(col, cfg):
                    sample={"method": [l.text for l in H.render(case["tree"])], "sched": case["sched"], "t0": case["t0"],
                            "tot": case["tot"][:6]})
 
-    hyp_run(H.cases(opts), body, max(1, cfg["examples"] // col.nshards), shard_seed(col.seed, col.shard), col)
+    # Hypothesis keeps generating (cheap but not free) examples after the budget ran out; the shard's share is therefore
+    # drawn in chunks with seeds derived from (seed, shard, chunk number), and no new chunk starts after the deadline.
+    total = max(1, cfg["examples"] // col.nshards)
+    chunk = int(cfg.get("chunk", 300))
+    done = i = 0
+    while done < total and not col.expired():
+        n = min(chunk, total - done)
+        hyp_run(H.cases(opts), body, n, shard_seed(col.seed, col.shard) * 1000 + i, col)
+        done += n
+        i += 1
